@@ -145,15 +145,92 @@ theorem decTx_no_oom (mem : Nat) (p : Bytes) (hm : maxAlloc ≤ mem) : decTx mem
   repeat' split
   all_goals (first | (simp; done) | simp_all [allocCheck_no_oom _ _ hm, decTxIns_no_oom _ _ _ hm, decTxOuts_no_oom _ _ _ hm])
 
-theorem blockTxLoop_no_oom (mem : Nat) (k : Nat) (b : Bytes) (hm : maxAlloc ≤ mem) : blockTxLoop mem k b ≠ .oom := by
-  induction k generalizing b with
-  | zero => unfold blockTxLoop; simp
-  | succ k ih =>
-    unfold blockTxLoop
-    split
-    · exact ih _
+/-- the streaming transaction parser of the requested block never reports a fatal allocation
+    either (same hypothesis). -/
+theorem sAlloc_ne_oom (mem n : Nat) (hm : maxAlloc ≤ mem) : sAlloc mem n ≠ .oom := by
+  unfold sAlloc
+  split
+  · simp
+  · split
+    · omega
     · simp
-    · rename_i h; exact absurd h (decTx_no_oom _ _ hm)
+
+theorem sScript_ne_oom (mem : Nat) (b : Bytes) (hm : maxAlloc ≤ mem) : sScript mem b ≠ .oom := by
+  unfold sScript
+  split
+  · simp
+  · simp
+  · simp
+  · rename_i h; unfold sVarInt at h; split at h <;> cases h
+  · split
+    · simp
+    · split
+      · simp
+      · simp
+      · simp
+      · rename_i h
+        split at h
+        · exact absurd h (sAlloc_ne_oom _ _ hm)
+        · cases h
+      · split <;> simp
+
+theorem sTxIns_ne_oom (mem : Nat) (hm : maxAlloc ≤ mem) (fuel remaining : Nat) (b : Bytes) :
+    sTxIns mem fuel remaining b ≠ .oom := by
+  induction fuel generalizing remaining b with
+  | zero => cases remaining <;> (unfold sTxIns; simp)
+  | succ fuel ih =>
+    cases remaining with
+    | zero => unfold sTxIns; simp
+    | succ remaining =>
+      unfold sTxIns
+      split
+      · split
+        · split
+          · exact ih _ _
+          · simp
+        · simp
+        · simp
+        · simp
+        · rename_i h; exact absurd h (sScript_ne_oom _ _ hm)
+      · simp
+
+theorem sTxOuts_ne_oom (mem : Nat) (hm : maxAlloc ≤ mem) (fuel remaining : Nat) (b : Bytes) :
+    sTxOuts mem fuel remaining b ≠ .oom := by
+  induction fuel generalizing remaining b with
+  | zero => cases remaining <;> (unfold sTxOuts; simp)
+  | succ fuel ih =>
+    cases remaining with
+    | zero => unfold sTxOuts; simp
+    | succ remaining =>
+      unfold sTxOuts
+      split
+      · split
+        · exact ih _ _
+        · simp
+        · simp
+        · simp
+        · rename_i h; exact absurd h (sScript_ne_oom _ _ hm)
+      · simp
+
+theorem sTx_ne_oom (mem : Nat) (b : Bytes) (hm : maxAlloc ≤ mem) : sTx mem b ≠ .oom := by
+  unfold sTx
+  repeat' split
+  all_goals (first | (simp; done) | simp_all [sAlloc_ne_oom _ _ hm, sTxIns_ne_oom _ hm, sTxOuts_ne_oom _ hm])
+
+theorem blockLoop_ne_oom (mem : Nat) (hm : maxAlloc ≤ mem) (fuel remaining : Nat) (b : Bytes) (got : Nat) :
+    (blockLoop mem fuel remaining b got).1 ≠ .oom := by
+  induction fuel generalizing remaining b got with
+  | zero => cases remaining <;> (unfold blockLoop; simp)
+  | succ fuel ih =>
+    cases remaining with
+    | zero => unfold blockLoop; simp
+    | succ remaining =>
+      unfold blockLoop
+      split
+      · exact ih _ _ _
+      · rename_i x hx
+        simp only []
+        exact sTx_ne_oom mem b hm
 
 /-! ## no handler aborts when the host grants what the runtime allows -/
 
@@ -232,13 +309,13 @@ theorem hBlock_nopanic (e : Env) (s : State) (L : Nat) (inp : Bytes) (hm : maxAl
         · unfold NoPanic; simp
         · split
           · unfold NoPanic; simp
+          · unfold NoPanic; simp
           · split
             · unfold NoPanic; simp
             · unfold NoPanic; simp
-            · split
-              · unfold NoPanic; simp
-              · rename_i h; exact absurd h (blockTxLoop_no_oom _ _ _ hm)
-              · unfold NoPanic; simp
+            · unfold NoPanic; simp
+            · rename_i h; exact absurd h (blockLoop_ne_oom _ hm _ _ _ _)
+            · unfold NoPanic; simp
 
 theorem dispatch_nopanic (e : Env) (s : State) (h : Handler) (L : Nat) (ck body : Bytes)
     (hm : maxAlloc ≤ e.mem) : NoPanic (dispatch e s h L ck body) := by
